@@ -346,6 +346,43 @@ def run(tier, seed):
         for u, s in zip(us, st[1:]):
             judge(ctx, rules, u, s, "eval")
     ctx.legs.append("eval")
+    # ---------------- redefinition: the keyword m is defined again with other rules on the same interpreter (and once as a procedure in between);
+    # uses are judged by the rules in force, also uses that matched under the old rules only
+    redef = [rs for rs in rulesets[n_single:]]
+    rng.shuffle(redef)
+    rjobs, rmeta = [], []
+    for k in range(0, min(len(redef) - 1, 400 if tier == "quick" else 6000), 2):
+        (r1, u1), (r2, u2) = redef[k], redef[k + 1]
+        mixed = u2[:12] + u1[:8]
+        steps = [{"src": define_text(r1)}] + [{"src": use_text(u), "disp": True} for u in u1[:8]]
+        between = False      # (a variable definition of m between the two: m stays a macro in Ruschm; no property speaks about that, see DESIGN 4.3)
+        if between:
+            steps += [{"src": "(define (m . args) (cons 'procedure-m args))"}, {"src": "(m 1 2)", "disp": True}]
+        steps += [{"src": define_text(r2)}] + [{"src": use_text(u), "disp": True} for u in mixed]
+        rjobs.append({"id": "c04r", "interps": [{"stdlib": True}], "steps": steps, "fuel": 20000}); rmeta.append((r1, u1[:8], r2, mixed, between))
+    rrecs = core.run_jobs(rjobs, "dev" if tier == "quick" else "release", timeout=900, tag="c04r")
+    for (r1, u1, r2, mixed, between), rec in zip(rmeta, rrecs):
+        if rec is None or "steps" not in rec:
+            ctx.inconclusive_cases += 1; continue
+        st = rec["steps"]
+        pos = 1
+        for u in u1:
+            judge(ctx, r1, u, st[pos], "eval-before-redefinition"); pos += 1
+        if between:
+            k1, v1 = core.outcome(st[pos + 1])
+            if k1 != "ok" or v1.get("disp") != "(procedure-m 1 2)":
+                ctx.violation({"what": "after (define (m . args) ..) the name m still denotes the macro", "kind": "macro", "via": "redefinition", "observed": v1,
+                               "rules": define_text(r1), "dedupe": "redef-proc"}, {"define": define_text(r1)})
+            pos += 2
+        k0, v0 = core.outcome(st[pos]); pos += 1
+        if k0 != "ok":
+            ctx.violation({"what": "a second define-syntax of the same keyword was rejected", "kind": "define", "rules": define_text(r2), "observed": st[pos - 1], "dedupe": "redef-define"},
+                          {"define": define_text(r2)})
+            continue
+        for u in mixed:
+            judge(ctx, r2, u, st[pos], "eval-after-redefinition"); pos += 1
+        ctx.count("redefinitions")
+    ctx.legs.append("redefinition")
     # ---------------- Transformer::transform on a sample
     sample = rng.sample(rulesets, min(len(rulesets), 300 if tier == "quick" else core.share(3000)))
     ejobs = [{"id": i, "def": define_text(rules), "uses": [use_text(u) for u in us[:40]]} for i, (rules, us) in enumerate(sample)]
